@@ -1245,11 +1245,16 @@ impl ByteCodeGenerator {
                 }
             }
             mir::Instruction::Delay(max, src, time) => {
+                // The destination register is allocated before the operands are released so that
+                // it cannot alias them: it carries the size of this delay's ring buffer into the
+                // Delay instruction (a function can contain delays of different sizes).
+                let dst = self.vregister.add_newvalue(&dst);
                 let s = self.find(&src);
                 let t = self.find(&time);
-
-                let dst = self.vregister.add_newvalue(&dst);
                 funcproto.delay_sizes.push(max);
+                let pos = funcproto.add_new_constant(max);
+                let bytecodes_dst = bytecodes_dst.unwrap_or_else(|| funcproto.bytecodes.as_mut());
+                bytecodes_dst.push(VmInstruction::MoveConst(dst, pos as ConstPos));
                 Some(VmInstruction::Delay(dst, s, t))
             }
             mir::Instruction::Mem(src) => {
